@@ -106,7 +106,8 @@ def main():
                 c = pickle.loads(pickle.dumps(V[w]))
                 records.append({"k": "pickle", "eq": bool(c == V[w]) and bool(V[w] == c), "str_same": str(c) == str(V[w]),
                                 "hash_same": hash(c) == hash(V[w]),
-                                "tok_same": c.__dask_tokenize__() == V[w].__dask_tokenize__(), "spec": vspec[w]})
+                                "tok_same": c.__dask_tokenize__() == V[w].__dask_tokenize__(), "spec": vspec[w],
+                                "str": nm(str(V[w])), "str_clone": nm(str(c))})
                 V[v] = c
                 vsys[v], vlazy[v], vspec[v] = vsys[w], False, vspec[w]
                 obs.append("s:" + nm(str(c)))
